@@ -360,7 +360,7 @@ static void check_path(const string& p) {
   bool has = p.find('/') != string::npos;
   if (has) {
     if (d + "/" + b != p)
-      C->violation("dirname_basename:not-inverse", "dirname(p)+'/'+basename(p) != p", fmt("p(hex)=%s dirname(hex)=%s basename(hex)=%s", vf::hex(p).c_str(), vf::hex(d).c_str(), vf::hex(b).c_str()));
+      VIOL("dirname_basename:not-inverse", "dirname(p)+'/'+basename(p) != p", fmt("p(hex)=%s dirname(hex)=%s basename(hex)=%s", vf::hex(p).c_str(), vf::hex(d).c_str(), vf::hex(b).c_str()));
     size_t last = p.rfind('/');
     C->cls(fmt("path:%s%s%s", p[0] == '/' ? "absolute" : "relative", last + 1 == p.size() ? ":trailing-slash" : "", p.find("//") != string::npos ? ":double-slash" : ""));
   } else
